@@ -3,8 +3,10 @@
 
 confirm: in a scratch worktree of /repo HEAD (under /tmp, removed afterwards): apply patch.diff, build library + unit
          tests, run the pinned suite (must pass), build and run the demonstration (must exit 1), revert, demo must exit 0.
-detect : apply patch.diff to /repo itself, run tools/check.py for every property in meta.json["checks"] (default: the
-         property it breaks), undo the patch (git checkout -- .), record which checks raised VIOLATION.
+detect : run tools/check.py for every property in meta.json["checks"] (default: the property it breaks) against a scratch
+         worktree of /repo HEAD with patch.diff applied (isolated work dir and lean tree under /tmp/seediso; equivalent to
+         `git -C /repo apply patch.diff; check; git -C /repo checkout -- .` but safe while other work uses /repo), and record
+         which checks raised VIOLATION.
 Results are written into the seed's meta.json.
 """
 import json, os, shutil, subprocess, sys, time
@@ -58,23 +60,36 @@ def confirm(d, meta):
     return res
 
 
+ISO = "/tmp/seediso"
+
+
 def detect(d, meta):
+    """evaluate the seed in ISOLATION: scratch worktree of /repo HEAD with the patch applied, scratch work dir,
+    scratch copy of the lean tree (so regenerated Gen files and build products do not disturb /verif)"""
     res = {}
-    rc, out = sh(["git", "-C", REPO, "status", "--porcelain", "--untracked-files=no"])
-    if out.strip():
-        return {"error": "/repo has uncommitted changes: " + out[:200]}
-    rc, out = sh(["git", "-C", REPO, "apply", os.path.join(d, "patch.diff")])
+    repo = os.path.join(ISO, "repo")
+    sh(["git", "-C", REPO, "worktree", "remove", "--force", repo])
+    shutil.rmtree(repo, ignore_errors=True)
+    os.makedirs(ISO, exist_ok=True)
+    rc, out = sh(["git", "-C", REPO, "worktree", "add", "-q", repo, "HEAD"])
     if rc != 0:
-        return {"error": "patch does not apply to /repo: " + out[-300:]}
+        return {"error": "worktree: " + out[-300:]}
     try:
+        rc, out = sh(["git", "apply", os.path.join(d, "patch.diff")], cwd=repo)
+        if rc != 0:
+            return {"error": "patch does not apply: " + out[-300:]}
+        lean = os.path.join(ISO, "lean")
+        sh(["rsync", "-a", "--delete", os.path.join(VERIF, "lean") + "/", lean + "/"])
+        env = dict(os.environ, VERIF_REPO=repo, VERIF_WORKDIR=os.path.join(ISO, "work"), VERIF_LEAN=lean, VERIF_OUTDIR=os.path.join(ISO, "out"))
         for prop in meta.get("checks", [meta["property"]]):
             t0 = time.time()
-            rc, out = sh([sys.executable, os.path.join(HERE, "check.py"), prop, "--tier", "quick"], cwd=VERIF, timeout=7200)
+            p = subprocess.run([sys.executable, os.path.join(HERE, "check.py"), prop, "--tier", "quick"], cwd=VERIF, env=env, text=True,
+                               stdout=subprocess.PIPE, stderr=subprocess.STDOUT, timeout=7200)
+            rc, out = p.returncode, p.stdout
             lines = [l for l in out.split("\n") if l.startswith("VIOLATION") or l.startswith("KNOWN-FINDING") or l.startswith(prop + " ")]
             res[prop] = {"exit": rc, "detected": rc == 1 and any(l.startswith("VIOLATION") for l in lines),
                          "concrete_witness": any(l.startswith("VIOLATION") and "no-failing-input-found" not in l for l in lines),
                          "lines": lines[:6], "wall_s": round(time.time() - t0, 1)}
-            # keep the first replay for the record
             for l in lines:
                 if l.startswith("VIOLATION") and "replay=" in l:
                     rp = l.split("replay=")[1].split()[0]
@@ -85,7 +100,8 @@ def detect(d, meta):
                         pass
                     break
     finally:
-        sh(["git", "-C", REPO, "checkout", "--", "."])
+        sh(["git", "-C", REPO, "worktree", "remove", "--force", repo])
+        shutil.rmtree(repo, ignore_errors=True)
     return res
 
 
